@@ -62,7 +62,7 @@ def wireEqv : W → W → Bool
   | .res a b, .res a' b' => wireEqv a a' && wireEqv b b'
   | .prod ts, .prod ts' => wireEqvL ts ts'
   | .rep n _ t, .rep n' _ t' => (n == n') && wireEqv t t'
-  | .tagged w alts, .tagged w' alts' => (w == w') && wireEqvL alts alts'
+  | .tagged w alts, .tagged w' alts' => (w == w') && wireEqvPrefix alts alts'
   | .canary, .canary => true
   | .sysTime, .sysTime => true
   | _, _ => false
@@ -70,6 +70,11 @@ def wireEqvL : WL → WL → Bool
   | .nil, .nil => true
   | .cons t ts, .cons t' ts' => wireEqv t t' && wireEqvL ts ts'
   | _, _ => false
+/-- the reader may know variants appended after the writer's version -/
+def wireEqvPrefix : WL → WL → Bool
+  | .nil, _ => true
+  | .cons t ts, .cons t' ts' => wireEqv t t' && wireEqvPrefix ts ts'
+  | .cons _ _, .nil => false
 end
 
 end Sfv
